@@ -1440,7 +1440,7 @@ def search(ctx, seeds, full=False):
     todo += [mk_call(v, s) for v, s, _ in fixed_cases()]
     # 2. single calls, in every call form of the pinned signature match(cmp_value, spec)
     div = 4 if getattr(ctx, 'ambient', None) else 1     # ambient children: a quarter of every generated family
-    n = ((25000 if full else 5000) if ctx.quick else (150000 if full else 40000)) // div
+    n = ((18000 if full else 5000) if ctx.quick else (150000 if full else 40000)) // div
     judged = 0
     for i in range(n + len(todo)):
         if len(fails) >= 5:
@@ -1466,7 +1466,7 @@ def search(ctx, seeds, full=False):
     ctx.count('search/judged', judged)
     # 3. call sequences: families of specs that differ only in where the whitespace falls (both orders, same
     #    values); match() before and after a caller customises the grammar the public make_grammar() returned
-    n_fam = ((1000 if full else 100) if ctx.quick else (6000 if full else 1500)) // div
+    n_fam = ((600 if full else 100) if ctx.quick else (6000 if full else 1500)) // div
     n_gram = ((200 if full else 40) if ctx.quick else (1500 if full else 400)) // div
     for k in range(n_fam + n_gram):
         if len(fails) >= 5:
